@@ -1284,10 +1284,10 @@ pub fn check(rep: &Report) {
     if tier == Tier::Thorough {
         rep.enumerate("per-integer-u32-exhaustive", true, |p, n| ((p as u64)..(1u64 << 32)).step_by(n).map(|v| PerCase::Integer(v as u32)), run_per);
     }
-    rep.random("per-random", tier.n(100_000, 3_000_000), 16, decode_per, run_per);
-    rep.random("model", tier.n(200_000, 8_000_000), 200, decode_model, run_model);
-    rep.random("asn1", tier.n(60_000, 2_000_000), 160, decode_asn, run_asn);
-    rep.random("gcc", tier.n(60_000, 2_000_000), 96, decode_gcc, run_gcc);
+    rep.random("per-random", tier.n(300_000, 6_000_000), 16, decode_per, run_per);
+    rep.random("model", tier.n(600_000, 20_000_000), 200, decode_model, run_model);
+    rep.random("asn1", tier.n(200_000, 6_000_000), 160, decode_asn, run_asn);
+    rep.random("gcc", tier.n(200_000, 6_000_000), 96, decode_gcc, run_gcc);
     rep.enumerate(
         "gcc-request-lengths",
         true,
